@@ -225,7 +225,7 @@ func c06Judge(c *mon.Ctx, cs *c06Case) {
 
 type c06Slot struct {
 	Key      int    // signing key index
-	Class    string // correct | wrong-key | wrong-digest | empty | high-s | weird-hashtype | non-der
+	Class    string // correct | wrong-key | wrong-digest | empty | high-s | weird-hashtype | non-der | ber-padded
 	HashType byte
 }
 
@@ -314,6 +314,22 @@ func breakDER(r *prng.R, der []byte) []byte {
 		}
 	}
 	return o
+}
+
+// padBER re-encodes a DER signature with p extra leading zero bytes in front
+// of R and of S (lengths kept consistent): no longer DER, but what the node's
+// lax parser - the one in force when no flag demands DER - reads as the same
+// (R, S). With p >= 3 the encoding is longer than the 72-byte DER maximum.
+func padBER(der []byte, p int) []byte {
+	lr := int(der[3])
+	rb := der[4 : 4+lr]
+	ls := int(der[5+lr])
+	sb := der[6+lr : 6+lr+ls]
+	z := make([]byte, p)
+	body := append([]byte{0x02, byte(lr + p)}, append(append([]byte{}, z...), rb...)...)
+	body = append(body, 0x02, byte(ls+p))
+	body = append(body, append(append([]byte{}, z...), sb...)...)
+	return append([]byte{0x30, byte(len(body))}, body...)
 }
 
 // c06Make builds the transaction, scripts and provenance tables for a spec.
@@ -512,6 +528,11 @@ func c06Make(r *prng.R, sp *c06Spec) *c06Case {
 			b := flipS(signDER(privs[key], dem))
 			reg(b, key, dem)
 			final[i] = append(b, sl.HashType)
+		case "ber-padded":
+			b := signDER(privs[key], dem)
+			nb := padBER(b, 1+2*r.Intn(3)) // 1, 3 or 5 zero bytes in front of R and of S
+			reg(nb, key, dem)
+			final[i] = append(nb, sl.HashType)
 		case "non-der":
 			b := signDER(privs[key], dem)
 			nb := breakDER(r, b)
@@ -616,7 +637,7 @@ func init() {
 			return
 		}
 		c.Info("sighash_model_vectors_reproduced", 1000)
-		classes := []string{"correct", "wrong-key", "wrong-digest", "empty", "high-s", "weird-hashtype", "non-der", "forkid-bit-mismatch"}
+		classes := []string{"correct", "wrong-key", "wrong-digest", "empty", "high-s", "weird-hashtype", "non-der", "forkid-bit-mismatch", "ber-padded"}
 		keyEncs := []string{"c", "u", "h", "short", "badprefix", "offcurve", "empty", "c-with-04", "u-with-02", "long"}
 		sepKinds := []string{"plain", "unexecuted-if", "executed-if"}
 		run := func(n uint64, mk func(r *prng.R) *c06Spec, class string) {
@@ -748,11 +769,12 @@ func init() {
 		for _, form := range []byte{0, 0x4c, 0x4d, 0x4e} {
 			for _, ht := range []byte{0x01, 0x02, 0x03, 0x81, 0x83} {
 				for _, fl := range []uint32{0, uint32(scriptflag.UTXOAfterGenesis), uint32(scriptflag.VerifyDERSignatures | scriptflag.VerifyLowS), uint32(scriptflag.VerifyStrictEncoding | scriptflag.UTXOAfterGenesis)} {
-					for rep := 0; rep < 2; rep++ {
+					for rep := 0; rep < 6; rep++ { // x 1, 2 or 3 pushes of the signature (every one of them is taken out of the script code)
 						n++
 						if !c.Case(n) {
 							continue
 						}
+						copies := 1 + rep/2
 						r := c.Rand(n)
 						kb := r.Bytes(32)
 						kb[0] &= 0x7f
@@ -761,7 +783,7 @@ func init() {
 						pk := pub.SerialiseCompressed()
 						shape := gen.RandShape(r, gen.ShapeOpts{MinIns: 1, MaxIns: 3, MaxOuts: 3})
 						cs := &c06Case{Flags: fl, Sats: uint64(1 + r.Intn(100000)), Keys: []mon.Hex{kb}, Tx: *shape, Idx: r.Intn(len(shape.Ins)), Class: "embedded-signature"}
-						codeMinus := append(append([]byte{0x75}, gen.Push(pk)...), 0xac)
+						codeMinus := append(append(bytes.Repeat([]byte{0x75}, copies), gen.Push(pk)...), 0xac)
 						dg, err := refsighash.LegacyDigest(shModelTx(&cs.Tx), cs.Idx, codeMinus, uint32(ht))
 						if err != nil {
 							continue
@@ -772,13 +794,17 @@ func init() {
 						if form != 0 {
 							push, _ = refcodec.PushWith(form, sig)
 						}
-						cs.Lock = append(append([]byte{}, push...), codeMinus...)
-						if rep == 1 {
+						cs.Lock = nil
+						for k := 0; k < copies; k++ {
+							cs.Lock = append(append(cs.Lock, push...), 0x75)
+						}
+						cs.Lock = append(cs.Lock, codeMinus[copies:]...)
+						if rep%2 == 1 {
 							cs.Lock = append(cs.Lock, 0x91) // ... NOT
 						}
 						cs.Sigs = []c06SigRec{{Body: der, Key: 0, Digest: dg[:]}}
 						cs.Tx.Ins[cs.Idx].Unlock, cs.Tx.Ins[cs.Idx].UnlockNil = gen.Push(sig), false
-						cs.Desc = fmt.Sprintf("embedded signature pushed with form %#x, hash type %#x", form, ht)
+						cs.Desc = fmt.Sprintf("embedded signature pushed %d time(s) with form %#x, hash type %#x", copies, form, ht)
 						judge(c, cs)
 					}
 				}
@@ -1021,7 +1047,7 @@ func init() {
 		}
 	}
 	p.Floor = func(a *mon.Agg) string {
-		for _, cl := range []string{"correct", "wrong-key", "wrong-digest", "empty", "high-s", "weird-hashtype", "non-der"} {
+		for _, cl := range []string{"correct", "wrong-key", "wrong-digest", "empty", "high-s", "weird-hashtype", "non-der", "ber-padded"} {
 			tot := int64(0)
 			for _, o := range []string{"accepted", "false-result", "hard-error"} {
 				tot += a.Cov["C06:class:single:"+cl+":"+o]
